@@ -329,9 +329,12 @@ type fatRun struct {
 	opIdx int
 	trig  string
 	locus string
-	held  [3]struct {
-		f    filesystem.File
-		path string
+	// (stale: the file was changed through another handle since this one was opened or last wrote; what such a
+	// handle then reads is not covered by the statement - what it writes is)
+	held [3]struct {
+		stale bool
+		f     filesystem.File
+		path  string
 	}
 	firstFill      int64
 	emptied        bool
@@ -747,6 +750,11 @@ func (x *fatRun) step(o core.Op) *core.Violation {
 			x.mutated = true
 			x.dropHandles(o.P)
 		}
+		for i := range x.held {
+			if x.held[i].f != nil && strings.EqualFold(x.held[i].path, o.P) {
+				x.held[i].stale = true
+			}
+		}
 		v := x.writeVia(f, o.P, off, data, o.K == "append")
 		core.Guard(func() { f.Close() })
 		if v != nil {
@@ -1005,7 +1013,7 @@ func (x *fatRun) step(o core.Op) *core.Violation {
 			x.lastErr = true
 			return nil
 		}
-		x.held[slot].f, x.held[slot].path = f, o.P
+		x.held[slot].f, x.held[slot].path, x.held[slot].stale = f, o.P, false
 		x.res.Probe("held-handle")
 	case "hwrite":
 		slot := int(o.A % 3)
@@ -1025,10 +1033,20 @@ func (x *fatRun) step(o core.Op) *core.Violation {
 		}
 		x.trig, x.locus = "hwrite("+offClass(o.D)+")", lib+".(*File).Write"
 		data := core.PatternBytes(uint64(o.C)+uint64(x.opIdx), o.B)
+		if len(data) == 0 && x.held[slot].stale {
+			return nil // a write of nothing does not refresh the handle, and what a stale handle reads is not judged
+		}
 		off := x.offsetFor(o.D, int64(len(n.data)), 700)
+		for i := range x.held {
+			if i != slot && x.held[i].f != nil && strings.EqualFold(x.held[i].path, p) {
+				x.held[i].stale = true
+			}
+		}
 		if v := x.writeVia(x.held[slot].f, p, off, data, false); v != nil {
 			return v
 		}
+		x.held[slot].stale = false
+		x.res.Probe("write-through-older-handle")
 	case "hread":
 		slot := int(o.A % 3)
 		if x.held[slot].f == nil {
@@ -1037,6 +1055,9 @@ func (x *fatRun) step(o core.Op) *core.Violation {
 		p := x.held[slot].path
 		n := m.get(p)
 		if n == nil || n.dir || n.tainted {
+			return nil
+		}
+		if x.held[slot].stale {
 			return nil
 		}
 		x.trig, x.locus = "hread", lib+".(*File).Read"
